@@ -55,6 +55,8 @@ DefaultKids(c) ==
       [] Children[c] = "operation" -> {<<o>> : o \in {x \in LeafOps : x.set = {}}}
       [] Children[c] = "integrator" -> {<<i>> : i \in {x \in Integrators : x.set = {}}}
       [] Children[c] = "operations" -> {<<a, b>> : a \in {x \in LeafOps : x.set = Params[x.cls]}, b \in {x \in LeafOps : x.set = {}}}
+                                      \* a composite operation nested in a composite operation (+ and * flatten; the constructor does not)
+                                      \cup {<<n, b>> : n \in {x \in CompOps : Len(x.kids) = 1 /\ x.kids[1].set = {}}, b \in {x \in LeafOps : x.set = {} /\ Params[x.cls] # {}}}
       [] Children[c] = "moves" -> {<<a>> : a \in ElemMoves} \cup {<<a, a>> : a \in {x \in ElemMoves : x.set = {}}}
                                       \* a composite nested in a composite (explicit constructor calls can build these)
                                       \cup {<<n, a>> : n \in {x \in RepMoves : Children[x.cls] = "moves"}, a \in {x \in RepMoves : Children[x.cls] = "operation"}}
